@@ -280,6 +280,16 @@ impl Response {
         header
     }
 
+    // Content-Range names the last byte actually sent (inclusive), whatever convention
+    // the range was built with
+    pub fn last_byte_position(content_range: &ContentRange) -> u64 {
+        let length = content_range.body.len() as u64;
+        if length == 0 {
+            return content_range.range.end;
+        }
+        content_range.range.start + length - 1
+    }
+
     pub fn generate_body(content_range_list: Vec<ContentRange>) -> Vec<u8> {
         let mut body = vec![];
         let one = 1;
@@ -303,7 +313,7 @@ impl Response {
                 let content_type = [Header::_CONTENT_TYPE, Header::NAME_VALUE_SEPARATOR, SYMBOL.whitespace, &content_range.content_type.to_string()].join("");
                 body_str.push_str(content_type.as_str());
                 body_str.push_str(SYMBOL.new_line_carriage_return);
-                let content_range_header = [Header::_CONTENT_RANGE, Header::NAME_VALUE_SEPARATOR, SYMBOL.whitespace, Range::BYTES, SYMBOL.whitespace, &content_range.range.start.to_string(), SYMBOL.hyphen, &content_range.range.end.to_string(), SYMBOL.slash, &content_range.size].join("");
+                let content_range_header = [Header::_CONTENT_RANGE, Header::NAME_VALUE_SEPARATOR, SYMBOL.whitespace, Range::BYTES, SYMBOL.whitespace, &content_range.range.start.to_string(), SYMBOL.hyphen, &Response::last_byte_position(content_range).to_string(), SYMBOL.slash, &content_range.size].join("");
                 body_str.push_str(content_range_header.as_str());
                 body_str.push_str(SYMBOL.new_line_carriage_return);
                 body_str.push_str(SYMBOL.new_line_carriage_return);
@@ -339,7 +349,7 @@ impl Response {
                 SYMBOL.whitespace,
                 &content_range.range.start.to_string(),
                 SYMBOL.hyphen,
-                &content_range.range.end.to_string(),
+                &Response::last_byte_position(content_range).to_string(),
                 SYMBOL.slash,
                 &content_range.size
             ].join("");
